@@ -62,8 +62,10 @@
           SET of map keys: independent of the order in which Go enumerates its maps and sets;
           C15_training_order_irrelevant -- permuting the training transactions does not change the output;
           C15_infer_correct -- the whole property for the command with its real choice.
-          Not modelled: IEEE arithmetic itself (the proofs hold for any flog/fadd/fgt); that the binary computes
-          the same float64 values on every run is a fact about the Go runtime, sampled by the check (10 runs).  *)
+          Not modelled: IEEE arithmetic itself (the proofs hold for any flog/fadd/fgt).  The check runs the
+          extracted infer_scored_sems with OCaml doubles and a transcription of Go's math.Log and requires every
+          choice of the binary to be the model's (drv_c15.ml, verdict choice-differs-from-model); that the binary
+          computes the same float64 values on every run is a fact about the Go runtime, sampled by 10 runs.      *)
 From Coq Require Import String ZArith List Bool Permutation Lia.
 From Knut Require Import Model.Bytes Model.Utf8 Model.UnicodeTables Model.Scanner Model.Parser
   Model.SynPrinter Spec.SyntaxSpec Proofs.ScannerProofs Proofs.ParserProofs Spec.FormatSpec
